@@ -12,7 +12,7 @@ claimed = {
    "The generators' nondeterminism sources (map iteration order, clock) are put behind a source-level seam in a scratch build and driven from the seed; outputs of reruns, seamed runs and perturbed request shapes (file order, file-to-generate subsets, dependent files generated in one run or in separate runs, several services per plugin process) are compared byte for byte with the canonical run of the freshly built plugins.",
    "seeded map-order / clock seam in a scratch build of the generators + request-shape perturbation, byte comparison"),
  "C17": ("exploration", "DESIGN.md §4 C17",
-   "Seeded interleavings of 2-10 concurrent calls at I/O points and at access probes inserted into a scratch copy of the generated code; the simulated ResponseWriter yields before every write (slow peer) and call-option values are shared between calls; three oracles: each call equals the same call executed alone (and a well-formed call is never rejected), no unordered conflicting access (vector-clock happens-before detector), client-visible history linearizable (porcupine).",
+   "Seeded interleavings of 2-10 concurrent calls at I/O points and at access probes inserted into a scratch copy of the generated code; the simulated ResponseWriter yields before every write (slow peer), call-option values and message instances are shared between calls, sync.Pool is seamed (LIFO reuse, hand-off = happens-before edge), every generated function starts with a pre-emption point; three oracles: each call equals the same call executed alone (and a well-formed call is never rejected), no unordered conflicting access (vector-clock happens-before detector), client-visible history linearizable (porcupine).",
    "deterministic simulation: seeded interleavings + solo-run isolation oracle + vector-clock race detection + porcupine"),
  "C02": ("exploration", "DESIGN.md §4 C02",
    "A contract client (built from the published contract, not from generated client code) emits raw requests for every verb x body shape x codec x URL value class over the simulated link into the Go and TS servers; oracle = reference binding model (URL-bound fields from the URL + body fields, or 400 naming the field and no dispatch).",
@@ -21,13 +21,13 @@ claimed = {
    "Full delivery matrix: three kinds of client (generated Go, generated TS, a client that only knows the emitted OpenAPI document) x two servers (Go, TS) run against each other over the simulated link for every sampled RPC; request lines are compared with each other and with the document, TS route descriptors and parameter placement are cross-checked, exactly one operation per RPC.",
    "deterministic co-simulation: client x server delivery matrix (Go, TS in Node, OpenAPI-driven) + document cross-check"),
  "C08": ("exploration", "DESIGN.md §4 C08",
-   "The generated TS modules run unmodified in Node 22 behind a lock-step bridge on the same simulated link as the Go nodes; TS->Go, Go->TS and TS->TS calls are checked by the delivery oracle on the contract JSON form, header helper options and AbortSignal included; module load is boot admission.",
+   "The generated TS modules run unmodified in Node 22 behind a lock-step bridge on the same simulated link as the Go nodes (routes created once per run, request bodies streamed to the route chunk by chunk as the link delivers them); TS->Go, Go->TS and TS->TS calls are checked by the delivery oracle on the contract JSON form, header helper options and AbortSignal included; module load is boot admission.",
    "deterministic co-simulation of generated TS and Go code over the simulated link, delivery oracle"),
  "C09": ("exploration", "DESIGN.md §4 C09",
    "Raw requests with explicit header sets (absent / empty / valid / unambiguously invalid per declared type and format, case variants, service x method merge) and a body that arrives late through an instrumented stream; oracle = reference header model: one violation per offending header, no dispatch, zero body reads before the decision, never rejected for valid headers; Go and TS servers. A second mode builds the header set from the parameter list of the emitted OpenAPI document: a request that satisfies what is published must be dispatched.",
    "deterministic simulation: contract client with raw header sets, delayed instrumented body stream, reference header model"),
  "C10": ("exploration", "DESIGN.md §4 C10",
-   "Scripted application-handler and error-hook nodes produce every documented error source; Go, TS and contract clients observe; oracle = the documented table (status, content type mirrors the request, body decodes to the expected message, hook overrides) and the client-side error value.",
+   "Scripted application-handler and error-hook nodes produce every documented error source; Go, TS and contract clients observe; oracle = the documented table (status, content type mirrors the request, body decodes to the expected message, hook overrides) and the client-side error value. Plans also put the server behind a deadline middleware, register the hook for some services only, let the hook write its body through io.WriteString / io.Copy and send media-type parameters; a second mode runs the Go and TS clients against a peer that answers error statuses with well-formed and damaged bodies.",
    "deterministic simulation: scripted handler/hook nodes, documented error table as oracle, client-side error mapping"),
  "C20": ("exploration", "DESIGN.md §4 C20",
    "The generated mock implementation backs the generated server; its randomness (rand.Intn, crypto/rand incl. failure) and clock are supplied by the plan through a seam in the scratch copy; repeated and interleaved calls; oracle = no error for valid requests, served and decoded equal in JSON and protobuf, example-bearing fields take a parsed example for every random choice; the mock also runs under the access-probe pass so that unsynchronised state in generated mock code is seen by the vector-clock race detector; building the mock is boot admission.",
